@@ -22,6 +22,16 @@ def symEngine : Engine String Float :=
     simplify := fun a => .ok s!"simplify({a})"
     cmds := fun _ => .ok [] }
 
+/-- count occurrences of "op(" in an expression = number of binary operations already performed -/
+def opCount (s : String) : Nat := (s.splitOn "op(").length - 1
+
+/-- symbolic engine with an injected Skia failure: the `idx`-th binary operation, or the simplify -/
+def faultyEngine (failSimplify : Bool) (idx : Nat) : Engine String Float :=
+  { symEngine with
+    op2 := fun o a b =>
+      if !failSimplify && opCount a == idx then .error .pathOpsError else symEngine.op2 o a b
+    simplify := fun a => if failSimplify then .error .pathOpsError else symEngine.simplify a }
+
 def operandStubs (n : Nat) : List (List (Cmd Float)) :=
   (List.range n).map (fun i => [('#', [Float.ofNat i])])
 
@@ -43,6 +53,28 @@ def handleEngine (fields : List String) : Option String :=
       | .error e => e.name
       | .ok none => "ok None"
       | .ok (some p) => "ok " ++ p)
+  | ["pathops", "wrap_fail", kind, shapes, explicit, failkind, idx] =>
+    let shp : List (String × String) := (words shapes).map (fun w =>
+      match w.splitOn "/" with
+      | [f, c] => (f, c)
+      | _ => (w, w))
+    let ex : Option (List String) := if explicit == "-" then none else some (words explicit)
+    let w? : Option Wrapper := match kind with
+      | "union" => some .union
+      | "intersection" => some (.intersection ex)
+      | "difference" => some .difference
+      | _ => none
+    w?.map (fun w =>
+      match wrapperP (faultyEngine (failkind == "simplify") idx.toNat!) w (operandStubs shp.length) shp with
+      | .error e => e.name
+      | .ok none => "ok None"
+      | .ok (some p) => "ok " ++ p)
+  | ["pathops", "remove_overlaps_fail", rule] =>
+    some (match ruleOf rule with
+      | .error e => e.name
+      | .ok r => match removeOverlapsP (faultyEngine true 0) [('#', [0])] r with
+        | .error e => e.name
+        | .ok p => "ok " ++ p)
   | ["pathops", "remove_overlaps", rule] =>
     some (match ruleOf rule with
       | .error e => e.name
